@@ -26,6 +26,7 @@ Inductive rstmt :=
 | RExpr (e : expr)
 | REcho (e : expr)
 | RPush (x : string) (e : expr)
+| RSetIdx (x : string) (k : Z) (e : expr)
 | RIf (c : expr) (t : rstmt) (ei : relifs) (e : rstmt)
 | RWhile (id : lid) (c : expr) (b : rstmt)
 | RDoWhile (id : lid) (b : rstmt) (c : expr)
@@ -54,6 +55,7 @@ Fixpoint resolve (stk : list lid) (path : lid) (s : stmt) {struct s} : rstmt :=
   | SExpr e => RExpr e
   | SEcho e => REcho e
   | SPush x e => RPush x e
+  | SSetIdx x k e => RSetIdx x k e
   | SIf c t ei e => RIf c (resolve stk (0 :: path) t) (resolve_elifs stk path 2 ei) (resolve stk (1 :: path) e)
   | SWhile c b => RWhile path c (resolve (path :: stk) (0 :: path) b)
   | SDoWhile b c => RDoWhile path (resolve (path :: stk) (0 :: path) b) c
@@ -88,7 +90,7 @@ with resolve_catches (stk : list lid) (path : lid) (i : nat) (l : catches) {stru
    time); equivalently, [resolve] produces no [RBad] *)
 Fixpoint scoped (d : nat) (s : stmt) {struct s} : bool :=
   match s with
-  | SSkip | SExpr _ | SEcho _ | SPush _ _ | SReturn _ | SStatic _ _ | SThrow _ => true
+  | SSkip | SExpr _ | SEcho _ | SPush _ _ | SSetIdx _ _ _ | SReturn _ | SStatic _ _ | SThrow _ => true
   | STry b cs f => scoped d b && scoped_catches d cs && scoped d f
   | SSeq a b => scoped d a && scoped d b
   | SIf _ t ei e => scoped d t && scoped_elifs d ei && scoped d e
@@ -112,6 +114,7 @@ Inductive rctl := RNone | RBrk (l : lid) | RCnt (l : lid) | RRet (v : value) | R
 Section Expr.
 Variable callf : callfn.
 Variable funs : list fundef.
+Variable clos : list clodef.
 Variable fn : string.
 
 Fixpoint reval (e : expr) (fr : frame) (g : glob) {struct e} : res eout :=
@@ -174,7 +177,7 @@ Fixpoint reval (e : expr) (fr : frame) (g : glob) {struct e} : res eout :=
       | Some _ =>
           match reval_args a fr g with
           | Res (inl vs) fr g =>
-              match callf f vs g with
+              match callf (CFun f) vs g with
               | Some (o, g') => Res o fr g'
               | None => Fuel
               end
@@ -215,6 +218,39 @@ Fixpoint reval (e : expr) (fr : frame) (g : glob) {struct e} : res eout :=
       | r => r
       end
   | EPanic => Res (EX (VErr "go panic")) fr g         (* an internal error is thrown like any other *)
+  | EIdx x i =>
+      match reval i fr g with
+      | Res (EV iv) fr g => Res (EV (arr_get (rd fn x fr g) iv)) fr g
+      | r => r
+      end
+  | EIdxInc pre x i =>                               (* the index is evaluated once *)
+      match reval i fr g with
+      | Res (EV iv) fr g =>
+          let '(nv, ov) := incr_value (arr_get (rd fn x fr g) iv) in
+          let '(fr', g') := wr fn x (arr_set (rd fn x fr g) iv nv) fr g in
+          Res (EV (if pre then nv else ov)) fr' g'
+      | r => r
+      end
+  | EClosure id =>                                    (* by-value captures are taken now *)
+      match nth_error clos id with
+      | Some cd => Res (EV (VClo id (gnext g) (capture fn (cuses cd) fr g))) fr (bump g)
+      | None => Res (EX (VErr "no such closure")) fr g
+      end
+  | ECallV f a =>
+      match reval f fr g with
+      | Res (EV (VClo id oid cap)) fr g =>
+          match reval_args a fr g with
+          | Res (inl vs) fr g =>
+              match callf (CClo id oid cap) vs g with
+              | Some (o, g') => Res o fr g'
+              | None => Fuel
+              end
+          | Res (inr x) fr g => Res (EX x) fr g
+          | Fuel => Fuel
+          end
+      | Res (EV _) fr g => Res (EX (VErr "not callable")) fr g
+      | r => r
+      end
   | EMatch s m =>
       (* strict comparison against the arm conditions in order; the first arm with an identical
          condition gives the value; `default` when none; origami: null when there is no default
@@ -323,23 +359,38 @@ Fixpoint handler_for (cm : catchfn) (cs : rcatches) (x : value) : option (option
 Section Stmt.
 Variable cm : catchfn.              (* "T is the thrown object's class, an ancestor or an implemented interface" *)
 Variable funs : list fundef.
+Variable clos : list clodef.
 
 Fixpoint rexec (n : nat) (fn : string) (s : rstmt) (fr : frame) (g : glob) {struct n} : res rctl :=
   match n with
   | O => Fuel
   | S n' =>
-    let callf : callfn := fun f vs g =>
-      match find_fun funs f with
-      | None => Some (EX (err "undefined function"), g)
-      | Some d =>
-          (* a fresh frame holding only the parameters; the body's exits are resolved on their own *)
-          match rexec n' f (resolve [] [] (fbody d)) (bind_params (fparams d) vs [], []) g with
-          | Fuel => None
-          | Res c _ g' => Some (rcall_result c, g')
+    let callf : callfn := fun c vs g =>
+      match c with
+      | CFun f =>
+          match find_fun funs f with
+          | None => Some (EX (err "undefined function"), g)
+          | Some d =>
+              (* a fresh frame holding only the parameters; the body's exits are resolved on their own *)
+              match rexec n' f (resolve [] [] (fbody d)) (bind_params (fparams d) vs [], []) g with
+              | Fuel => None
+              | Res c _ g' => Some (rcall_result c, g')
+              end
+          end
+      | CClo id oid cap =>
+          (* a closure: a fresh frame with the parameters and the values captured when the closure was
+             created; static locals belong to the closure object *)
+          match nth_error clos id with
+          | None => Some (EX (VErr "no such closure"), g)
+          | Some cd =>
+              match rexec n' (clo_name oid) (resolve [] [] (cbody cd)) (bind_captured cap (bind_params (cparams cd) vs []), []) g with
+              | Fuel => None
+              | Res c _ g' => Some (rcall_result c, g')
+              end
           end
       end in
-    let ev := reval callf funs fn in
-    let cond := rcond callf funs fn in
+    let ev := reval callf funs clos fn in
+    let cond := rcond callf funs clos fn in
     match s with
     | RSkip => Res RNone fr g
     | RSeq a b =>
@@ -362,6 +413,12 @@ Fixpoint rexec (n : nat) (fn : string) (s : rstmt) (fr : frame) (g : glob) {stru
     | RPush x e =>
         match ev e fr g with
         | Res (EV v) fr g => let '(fr', g') := wr fn x (arr_push (rd fn x fr g) v) fr g in Res RNone fr' g'
+        | Res (EX x) fr g => Res (RThrow x) fr g
+        | Fuel => Fuel
+        end
+    | RSetIdx x k e =>
+        match ev e fr g with
+        | Res (EV v) fr g => let '(fr', g') := wr fn x (arr_set (rd fn x fr g) (VInt k) v) fr g in Res RNone fr' g'
         | Res (EX x) fr g => Res (RThrow x) fr g
         | Fuel => Fuel
         end
@@ -398,7 +455,7 @@ Fixpoint rexec (n : nat) (fn : string) (s : rstmt) (fr : frame) (g : glob) {stru
             end
         end
     | RFor id init c inc b =>
-        match reval_each callf funs fn init fr g with
+        match reval_each callf funs clos fn init fr g with
         | Fuel => Fuel
         | Res (Some x) fr g => Res (RThrow x) fr g
         | Res None fr g =>
@@ -409,7 +466,7 @@ Fixpoint rexec (n : nat) (fn : string) (s : rstmt) (fr : frame) (g : glob) {stru
                 | Res cb fr g =>
                     match rloop_ctl id cb with
                     | RLNext =>
-                        match reval_each callf funs fn inc fr g with
+                        match reval_each callf funs clos fn inc fr g with
                         | Fuel => Fuel
                         | Res (Some x) fr g => Res (RThrow x) fr g
                         | Res None fr g => rexec n' fn (RFor id ANil c inc b) fr g
@@ -538,4 +595,4 @@ Definition rrun (n : nat) (p : stmt) : obs :=
   end.
 End Stmt.
 
-Definition run_ref (cm : catchfn) (n : nat) (p : prog) : obs := rrun cm (funcs p) n (main p).
+Definition run_ref (cm : catchfn) (n : nat) (p : prog) : obs := rrun cm (funcs p) (closures p) n (main p).
